@@ -174,3 +174,49 @@ def compare_rows(A, B, domain=(), positive=("N",), int_atoms=None, norm=None):
                         "spec_conditions": fmt_conds(cb), "spec_outcome": repr(ob),
                         "overlap": [repr(x) for x in w]}
     return None
+
+
+def _rename(f, ren):
+    if f[0] == "lin":
+        l = f[1]
+        return ("lin", Lin({ren(k): v for k, v in l.co.items()}, l.c, l.op))
+    if f[0] in ("and", "or"):
+        return (f[0], [_rename(g, ren) for g in f[1]])
+    if f[0] == "not":
+        return ("not", _rename(f[1], ren))
+    return f
+
+
+def determined_by(rows, key_atoms, domain=(), positive=("N",), int_atoms=None):
+    """is the outcome of the decision table a function of `key_atoms` alone?  None if yes; otherwise a witness: two rows with
+    different outcomes that are simultaneously satisfiable by two points agreeing on every key atom (exact, Fourier-Motzkin)."""
+    positive = set(positive)
+    key_atoms = set(key_atoms)
+
+    def full(conds):
+        f = conj_formula(conds, positive)
+        atoms = set()
+        _atoms_of(f, atoms)
+        for d in domain:
+            atoms.update(d.co.keys())
+        side = abs_side_conditions(atoms, positive)
+        pos = [("lin", Lin({a: -1}, 0, "<")) for a in sorted(atoms) if a in positive]
+        return f_and(f, *side, *pos, *[("lin", d) for d in domain])
+
+    def ren(a):
+        return a if a in key_atoms else a + "'"
+    for i, (ca, oa) in enumerate(rows):
+        for cb, ob in rows[i + 1:]:
+            if outcome_equal(oa, ob):
+                continue
+            fa = full(ca)
+            fb = _rename(full(cb), ren)
+            ia = None
+            if int_atoms:
+                ia = set(int_atoms) | {a + "'" for a in int_atoms}
+            w = sat(f_and(fa, fb), [], int_atoms=ia)
+            if w is not None:
+                from .sym import fmt_conds
+                return {"row_a": fmt_conds(ca), "outcome_a": repr(oa), "row_b": fmt_conds(cb), "outcome_b": repr(ob),
+                        "agreeing_on": sorted(key_atoms)}
+    return None
